@@ -11,7 +11,11 @@
 #include "WString.h"
 #include "Print.h"
 
+#ifdef SIM_ULONG32
+extern "C" unsigned int millis();   // matches SystemClock.h as compiled in the plain32 variant
+#else
 extern "C" unsigned long millis();
+#endif
 
 class SerialShim : public Print {
   public:
